@@ -128,7 +128,15 @@ pub type PointFn<'a> = dyn Fn(&Case, &Routed, &PointObs, usize, &mut Acc) + Sync
 
 /// generic exploration: cases × routings × sectors × points
 pub fn explore(plan: &Plan, f: &PointFn) -> Acc {
-    par_for(plan.cases.len(), |i, acc| {
+    // longest first: the work items are handed out dynamically, so the expensive configurations must not come last
+    let mut order: Vec<usize> = (0..plan.cases.len()).collect();
+    order.sort_by_key(|&i| {
+        let g = &plan.cases[i].g;
+        let l = g.loop_number(g.full());
+        std::cmp::Reverse((l * l * g.ne() * g.dim, i))
+    });
+    par_for(plan.cases.len(), |item, acc| {
+        let i = order[item];
         let case = match Case::new(&plan.cases[i]) {
             Some(c) => c,
             None => {
@@ -820,7 +828,9 @@ pub fn c02_point(case: &Case, r: &Routed, po: &PointObs, _nd: usize, acc: &mut A
     let hi = libm::exp(case.dod * (nt.ln() - cmin.ln()));
     // (a) the implementation's own tropical values bound the exact polynomials at the unrescaled parameters
     if let (Some(xnr), Some(ut), Some(vt)) = (&po.log.x_unrescaled, po.log.u_trop_nr, po.log.v_trop_nr) {
-        if finite_pos(xnr) && xnr.iter().all(|v| *v >= 1e-140) && ut.is_finite() && vt.is_finite() && ut > 0.0 && vt > 0.0 {
+        // G4: all values in the normal range (a product of many parameters >= 1e-140 can still be subnormal, where f64 products
+        // are no longer accurate to a relative 2^-53)
+        if finite_pos(xnr) && xnr.iter().all(|v| *v >= 1e-140) && ut.is_finite() && vt.is_finite() && ut >= 1e-290 && vt >= 1e-290 {
             if let Some(ex) = exact_at(case, &r.kin, xnr) {
                 if ex.r_cancel <= 1e8 && !ex.v.is_zero() {
                     acc.inc("polynomial_bounds_judged");
@@ -903,17 +913,20 @@ pub fn run_c02(ctx: &Ctx) -> i32 {
         k: tier.pick(2, 3),
         roles: Roles { u: true, xi: true, p: false, ab: false, xi_moderate: false, xi_ladder: false },
         settings: Settings::FULL,
-        full_product_cap: tier.pick(800, 6000),
+        full_product_cap: tier.pick(600, 6000),
         sector_all_up_to: 4,
         sector_stride: tier.pick(7, 3),
         tropical_routing: true,
-        points_per_case: tier.pick(3000, 8000),
+        points_per_case: tier.pick(3000, 6000),
         basis_orbit: true,
         basis_orbit_min_loops: 3,
     };
     let mut acc = explore(&plan, &c02_point);
+    acc.maxima.insert("phase_seconds_explore".into(), elapsed());
     acc.merge(inplace_pass(&plan.cases, &plan.settings, &c02_point));
+    acc.maxima.insert("phase_seconds_inplace".into(), elapsed());
     acc.merge(large_pass(&plan, tier, &c02_point));
+    acc.maxima.insert("phase_seconds_large".into(), elapsed());
     acc.violations.sort_by(|a, b| (a.key.as_str(), a.what.as_str()).cmp(&(b.key.as_str(), b.what.as_str())));
     sample_from_plan(&plan, &mut acc);
     let fin = Finish {
@@ -1251,9 +1264,10 @@ pub fn run_simple(ctx: &Ctx) -> i32 {
         },
         tropical_routing: matches!(prop, "C09" | "C10" | "C11"),
         points_per_case: match prop {
-            "C10" => tier.pick(4500, 15000),
-            "C09" => tier.pick(1000, 5000),
-            _ => tier.pick(1500, 5000),
+            "C10" => tier.pick(2000, 10000),
+            "C09" => tier.pick(900, 4000),
+            "C11" => tier.pick(1500, 3000),
+            _ => tier.pick(1500, 4000),
         },
         basis_orbit: prop == "C10",
         basis_orbit_min_loops: 2,
@@ -1268,10 +1282,13 @@ pub fn run_simple(ctx: &Ctx) -> i32 {
         _ => unreachable!(),
     };
     let mut acc = explore(&plan, f);
+    acc.maxima.insert("phase_seconds_explore".into(), elapsed());
     acc.merge(inplace_pass(&plan.cases, &plan.settings, f));
+    acc.maxima.insert("phase_seconds_inplace".into(), elapsed());
     if prop != "C13" {
         acc.merge(large_pass(&plan, tier, f));
     }
+    acc.maxima.insert("phase_seconds_large".into(), elapsed());
     acc.violations.sort_by(|a, b| (a.key.as_str(), a.what.as_str()).cmp(&(b.key.as_str(), b.what.as_str())));
     if prop == "C07" {
         match c07_nolog_pass(ctx) {
@@ -1375,63 +1392,80 @@ pub fn run_simple(ctx: &Ctx) -> i32 {
 /// subset; per sector the default answers plus an evenly strided selection of the one-deviation answer sequences of the plan's
 /// roles (at most `max_pts`), in the base routing and - if the plan uses it - the sector's tropical routing.
 pub fn large_pass(plan: &Plan, tier: Tier, f: &PointFn) -> Acc {
-    let cases = large_cases(tier);
+    let specs = large_cases(tier);
     let max_pts = tier.pick(10usize, 60);
-    par_for(cases.len(), |i, acc| {
-        let case = match Case::new(&cases[i]) {
-            Some(c) => c,
-            None => {
-                acc.inc("large_cases_not_admissible");
-                return;
+    // the oracle data of each configuration once, in parallel; then one work item per (configuration, sector)
+    let cases: Vec<Option<Case>> = std::thread::scope(|sc| {
+        let hs: Vec<_> = specs.iter().map(|s| sc.spawn(move || Case::new(s))).collect();
+        hs.into_iter().map(|h| h.join().ok().flatten()).collect()
+    });
+    let mut items: Vec<(usize, Vec<usize>)> = vec![];
+    let mut head = Acc::new();
+    for (ci, c) in cases.iter().enumerate() {
+        match c {
+            None => head.inc("large_cases_not_admissible"),
+            Some(case) => {
+                head.inc("large_cases");
+                head.inc("cases");
+                if case.generic {
+                    head.inc("cases_generic_kinematics");
+                }
+                head.hist("large_case_shape", &format!("{}-E{}L{}D{}", case.spec.label, case.g.ne(), case.nl, case.g.dim));
+                head.hist("case_shape", &format!("E{}L{}D{}", case.g.ne(), case.nl, case.g.dim));
+                let ne = case.g.ne();
+                for order in sector_subset(ne, tier == Tier::Thorough && ne <= 10) {
+                    items.push((ci, order));
+                }
             }
-        };
-        let base = match route_via(&case, &case.base_kin()) {
+        }
+    }
+    // longest first
+    items.sort_by_key(|(ci, _)| {
+        let c = cases[*ci].as_ref().unwrap();
+        std::cmp::Reverse(c.nl * c.nl * c.g.ne())
+    });
+    let mut acc = par_for(items.len(), |item, acc| {
+        let (ci, order) = &items[item];
+        let case = cases[*ci].as_ref().unwrap();
+        if time_up() {
+            acc.inc("items_skipped_by_time_cap");
+            return;
+        }
+        let base = match route_via(case, &case.base_kin()) {
             Ok(r) => r,
             Err(_) => {
-                acc.inc("large_cases_not_built");
+                acc.inc("large_sectors_not_built");
                 return;
             }
         };
-        acc.inc("large_cases");
-        acc.inc("cases");
-        if case.generic {
-            acc.inc("cases_generic_kinematics");
-        }
-        acc.hist("large_case_shape", &format!("{}-E{}L{}D{}", case.spec.label, case.g.ne(), case.nl, case.g.dim));
-        acc.hist("case_shape", &format!("E{}L{}D{}", case.g.ne(), case.nl, case.g.dim));
         let t_case = std::time::Instant::now();
-        let ne = case.g.ne();
-        for order in sector_subset(ne, tier == Tier::Thorough && ne <= 10) {
-            if time_up() {
-                acc.inc("items_skipped_by_time_cap");
-                break;
-            }
-            acc.inc("sectors");
-            acc.inc("large_sectors");
-            let mut routings: Vec<Routed> = vec![];
-            if plan.tropical_routing {
-                if let Ok(r) = route_via(&case, &case.tropical_kin(&order)) {
-                    routings.push(r);
-                }
-            }
-            let all = sector_points(&case, &order, 1, &plan.roles);
-            let step = (all.len() + max_pts - 1) / max_pts;
-            for (pi, (x, ndev)) in all.iter().enumerate() {
-                if pi != 0 && pi % step.max(1) != 0 {
-                    continue;
-                }
-                for r in std::iter::once(&base).chain(routings.iter()) {
-                    let po = observe_point(&case, r, x, &plan.settings);
-                    acc.inc("executions");
-                    acc.inc("large_executions");
-                    acc.add("answers_consumed", x.len() as u64);
-                    acc.hist("outcome", &po.out.kind());
-                    f(&case, r, &po, *ndev, acc);
-                }
+        acc.inc("sectors");
+        acc.inc("large_sectors");
+        let mut routings: Vec<Routed> = vec![];
+        if plan.tropical_routing {
+            if let Ok(r) = route_via(case, &case.tropical_kin(order)) {
+                routings.push(r);
             }
         }
-        acc.max(&format!("case_seconds[E{}L{}]", case.g.ne(), case.nl), t_case.elapsed().as_secs_f64());
-    })
+        let all = sector_points(case, order, 1, &plan.roles);
+        let step = ((all.len() + max_pts - 1) / max_pts).max(1);
+        for (pi, (x, ndev)) in all.iter().enumerate() {
+            if pi != 0 && pi % step != 0 {
+                continue;
+            }
+            for r in std::iter::once(&base).chain(routings.iter()) {
+                let po = observe_point(case, r, x, &plan.settings);
+                acc.inc("executions");
+                acc.inc("large_executions");
+                acc.add("answers_consumed", x.len() as u64);
+                acc.hist("outcome", &po.out.kind());
+                f(case, r, &po, *ndev, acc);
+            }
+        }
+        acc.max(&format!("sector_seconds[E{}L{}]", case.g.ne(), case.nl), t_case.elapsed().as_secs_f64());
+    });
+    acc.merge(head);
+    acc
 }
 
 /// A history of length two at ONE memory address (all properties of the sampler engine): sampler A is sampled, the slot it
@@ -1555,6 +1589,11 @@ pub fn orbit_pass(ctx: &Ctx) -> Acc {
     }).collect();
     // banana / flower with up to 5 loops
     cases.extend(dl_grid_cases().into_iter().filter(|c| c.g.dim == 3 || c.g.dim == 4));
+    // longest first (dynamic hand-out of work items)
+    cases.sort_by_key(|c| {
+        let l = c.g.loop_number(c.g.full());
+        std::cmp::Reverse(l * l * l * c.g.ne() * c.g.ne())
+    });
     let st = Settings::FULL;
     par_for(cases.len(), |i, acc| {
         let case = match Case::new(&cases[i]) {
